@@ -39,6 +39,28 @@ t('C17', 'E2', 'controlled scheduler over the real goroutines: exhaustive enumer
   'The goroutines that ValidateContext / ocsp.CheckStatus start are parked inside the harness RoundTripper, Fetcher and Cache; quiescence is read from goroutine dumps by creation ancestry; every interleaving (up to 2 520 per answer pattern) is executed with a panic or cancellation injected at every position. Checked per schedule: results equal the sequential reference, no deadlock state, no goroutine alive after return, injected panic resurfaces on the caller with its value, cancellation fails closed; two concurrent callers sharing validator/client/fetcher/cache each get the reference result.',
   'Interleavings are at seam granularity; unsynchronised memory accesses between seams are left to the auxiliary -race pass (1..32 callers), which samples schedules and is reported as auxiliary.')
 
+t('C02', 'E1', 'complete enumeration of the finite (key kind x declared algorithm x format x declaration form x signer) table with genuinely valid signatures for the declared algorithm',
+  'All 10 leaf key kinds x 17 declarations x both formats (x 5 JWS declaration forms incl. letter-case twins of alg), each envelope produced by an independent encoder and signed validly for the declared algorithm wherever the key type permits; every remote KeySpec in a 4x10 grid against every certificate key; every (leaf key, private key) pair of the 26-key pool for NewLocalSigner; Hash() and SignatureAlgorithm() tables. The space is finite and enumerated completely.',
+  'ECDSA/RSA/HMAC from the Go standard library are trusted. Two exact alg members are not generated.')
+t('C07', 'E1', 'deviation-bounded enumeration (singles, pairs, triples) of header-set deviations on correctly signed envelopes from an independent encoder',
+  '16 conformant header sets plus 60+ named deviations in 11 slots, tagged must-reject / recorded-only / benign; every single deviation and every cross-slot pair (thorough: triples) is encoded, validly signed and given to ParseEnvelope+Verify and +Content. Oracle: soundness on the description and on the returned value, completeness for conformant sets, Verify => Content with an identical result.',
+  'Deviations of one slot are never combined. Recorded-only deviations are not judged. Larger random sets are replaced by the exhaustive bound.')
+t('C12', 'E1+E2', 'deviation-bounded enumeration of per-source outcomes with model-independent shape rules, invalid-chain classes, and exhaustive completion orders under the seam scheduler',
+  'Chains of length 1..5 with distinct URLs, every per-source outcome class with <=1/<=2 deviations, both purposes, three entry points: documented shape rules checked on every result list and every position compared with the decision-table reference; every chain-validation violation class, empty and nil chain must give InvalidChainError and nil results; E2 enumerates all completion orders of the concurrent per-certificate checks.',
+  'One representative behaviour per outcome class.')
+t('C13', 'E1', 'enumeration of extra protected headers (label kinds x value kinds by rotation, all critical subsets) on correctly signed envelopes',
+  '0..6 extra protected headers with text and COSE integer labels (incl. look-alikes of specification names), values of every JSON/CBOR kind, every subset marked critical, plus crit naming absent or specification labels; the surfaced multiset of (key, criticality, value) is compared through the format data model (exact numbers), and ExtendedAttribute lookup is checked.',
+  'Label/value assignments are covered by rotations. JWS numbers that float64 cannot hold are a recorded known finding (5 literals).')
+t('C08', 'E1', 'deviation-bounded enumeration (singles and cross-slot pairs) of valid sign-request variations with independent re-decoding of the emitted envelope',
+  'A default request plus 70+ valid variations in 10 slots; every single variation and pair (P-256; singles on the other five key specs) in both formats with local and remote signers. The envelope must verify and equal the request (exact-number JSON / CBOR data model); the bytes handed to the external signer are compared with the signing input recomputed by an independent JSON/CBOR decoder.',
+  'Attribute integers stay below 2^53 here (see C13). An empty content type is only a valid request for JWS.')
+t('C16', 'E1', 'deviation-bounded enumeration (singles and cross-slot pairs) of invalidating changes to a valid sign request',
+  '85+ invalidating changes in 7 slots and three valid boundary cases; every single change and every cross-slot pair, both formats and schemes, local and remote signer, P-256 and RSA-2048 (thorough: six key specs). Any invalidating change => error, nil bytes, no panic; none => success; plus NewLocalSigner argument cases.',
+  'Changes of one slot are never combined. A signer whose chain carries another key of the same kind, or nil certificates, is outside the statement.')
+t('C20', 'E3', 'exhaustive enumeration of operation histories on one envelope object against a five-state reference machine',
+  'Every history up to length 4 (quick) / 6 (thorough) over 7 operations from 3 start states, both formats, local and remote signer, each replayed on a fresh object; after every operation Verify and Content are called twice and compared with the machine (purity, no-signature when empty, content of the last successful signing equal to a fresh parse of the returned bytes, failed signing never observable). Closed-form history counts are checked.',
+  'After a failed signing the model follows whichever allowed observation the object shows.')
+
 checks = []
 na = []
 for p in props:
